@@ -151,11 +151,58 @@ var readers = []readerKind{
 		})
 		return
 	}},
+	// the record as an element of a batch envelope, read the way the server reads batch_create bodies: the reader ignores
+	// the two leading scope levels for exclusion purposes, reported paths still carry them
+	{"json-in-envelope", "elements[0].", func(set *bridge.Set, full string, d derived, rng *rand.Rand, _ *[]string) (res result) {
+		res.doc = `{"elements":[` + refcodec.TreeJSON(d.tree, rng) + `]}`
+		defer func() {
+			if r := recover(); r != nil {
+				res.err = &codec.PanicError{Value: fmt.Sprint(r), Frame: "envelope reader"}
+			}
+		}()
+		r, err := restlicodec.NewJsonReaderWithExcludedFields([]byte(res.doc), restlicodec.NewPathSpec(), 2)
+		if err != nil {
+			res.err = err
+			return
+		}
+		res.ptr = set.New(full)
+		res.err = readEnvelope(r, res.ptr.Interface().(restlicodec.Unmarshaler))
+		return
+	}},
+	{"ror2-in-envelope", "elements[0].", func(set *bridge.Set, full string, d derived, rng *rand.Rand, _ *[]string) (res result) {
+		if d.hasNull {
+			return result{skipped: true}
+		}
+		res.doc = "(elements:List(" + refcodec.TreeROR2(d.tree, refcodec.Header, rng) + "))"
+		defer func() {
+			if r := recover(); r != nil {
+				res.err = &codec.PanicError{Value: fmt.Sprint(r), Frame: "envelope reader"}
+			}
+		}()
+		r, err := restlicodec.NewRor2ReaderWithExcludedFields(res.doc, restlicodec.NewPathSpec(), 2)
+		if err != nil {
+			res.err = err
+			return
+		}
+		res.ptr = set.New(full)
+		res.err = readEnvelope(r, res.ptr.Interface().(restlicodec.Unmarshaler))
+		return
+	}},
 	{"untyped", "", func(set *bridge.Set, full string, d derived, rng *rand.Rand, _ *[]string) result {
 		p := set.New(full)
 		_, err := codec.DecodeWith(restlicodec.NewInterfaceReader(untyped(d.tree)), p)
 		return result{p, err, fmt.Sprintf("%v", untyped(d.tree)), false}
 	}},
+}
+
+// readEnvelope reads {"elements": [record]} like the library's own Elements envelope does.
+func readEnvelope(r restlicodec.Reader, u restlicodec.Unmarshaler) error {
+	return r.ReadRecord(requiredElements, func(r restlicodec.Reader, field string) error {
+		if field == "elements" {
+			return r.ReadArray(func(r restlicodec.Reader) error { return u.UnmarshalRestLi(r) })
+		}
+		return r.Skip()
+	})
 }
 
 func trunc(s string) string {
